@@ -557,12 +557,15 @@ def level_case(seq, outline, pos, family):
 
 def gen_cases(tier, rng):
     cases = []
-    # (a) exhaustive level sequences over four levels
-    L = 5 if tier == 'quick' else 8
+    # (a) exhaustive level sequences over four levels (thorough: up to length 7 over {1,2,3,4}, length 8 over {1,2,3})
+    L = 5 if tier == 'quick' else 7
     n = 0
     for ln in range(0, L + 1):
         for seq in itertools.product((1, 2, 3, 4), repeat=ln):
             cases.append(level_case(seq, (0, 1, 2, 3, 4)[n % 5] if n % 7 else 10, n, 'exh-1234')); n += 1
+    if tier == 'thorough':
+        for seq in itertools.product((1, 2, 3), repeat=8):
+            cases.append(level_case(seq, (0, 2, 3)[n % 3], n, 'exh-123-len8')); n += 1
     # every sequence up to length 3 (quick) / 4 (thorough) with every outline level 0..10
     for ln in range(0, (3 if tier == 'quick' else 4) + 1):
         for seq in itertools.product((1, 2, 3, 4), repeat=ln):
@@ -575,7 +578,7 @@ def gen_cases(tier, rng):
                 cases.append(level_case(seq, (0, alpha[1], alpha[2], 10, alpha[3] - 1)[n % 5], n, 'exh-%s' % '-'.join(map(str, alpha)))); n += 1
     nexh = len(cases)
     # (b) random histories
-    for _ in range(500 if tier == 'quick' else 12000):
+    for _ in range(500 if tier == 'quick' else 8000):
         cases.append(gen_random_case(rng))
     for _ in range(12 if tier == 'quick' else 150):
         cases.append(gen_random_case(rng, big=True))
@@ -769,8 +772,8 @@ def run(tier, seed, replay=None):
                       "modelled in Toc.v: TOC._header_numbering, TOC.fill (title kept, outline level 0 -> 10, level filter, entry text from the heading's inner_text / str()), scripts/headers.py headers_document; Paragraph(...) via WS.append_plain_text",
                       "Python str(int) = Coq stdlib N.to_uint digits"],
         evaluations=nterms, distinct_nontrivial=len(digests),
-        rule="histories = document (headings 1..10 with white-space elements and nested spans, API-built and raw XML; paragraphs, sections, lists; 1-2 TOCs anywhere, title variants, outline 0..10) + ops (fill, immediate refill always, heading edits, level/outline/title changes, insert/delete heading, add TOC, save+reload, odfdo-headers). Exhaustive: every level sequence over {1,2,3,4} up to length %d, every such sequence up to length %d x every outline 0..10, other 4-level alphabets; then random histories and an edge stream. evaluations = checked steps (fill+refill, tool) evaluated in Coq; distinct_nontrivial = distinct (level sequence, inline-content shape, outline, title kind, TOC count, step kind) among them"
-             % ((5, 3) if tier == "quick" else (8, 4)),
+        rule="histories = document (headings 1..10 with white-space elements and nested spans, API-built and raw XML; paragraphs, sections, lists; 1-2 TOCs anywhere, title variants, outline 0..10) + ops (fill, immediate refill always, heading edits, level/outline/title changes, insert/delete heading, add TOC, save+reload, odfdo-headers). Exhaustive: every level sequence over {1,2,3,4} up to length %d (thorough: also every sequence of length 8 over {1,2,3}), every such sequence up to length %d x every outline 0..10, other 4-level alphabets; then random histories and an edge stream. evaluations = checked steps (fill+refill, tool) evaluated in Coq; distinct_nontrivial = distinct (level sequence, inline-content shape, outline, title kind, TOC count, step kind) among them"
+             % ((5, 3) if tier == "quick" else (7, 4)),
         samples=samples, histories=len(specs), families=fam_hist, ops=op_hist, checked_step_kinds=kinds,
         exhaustive_prefix_cases=nexh, corpus_cases=len(corpus), fidelity_divergences=fidelity,
         property_level_failures=len(hard), driver_notes=len(notes), exhaustive=False)
